@@ -164,7 +164,7 @@ func p384Scalar(label string) []byte {
 	return v.FillBytes(make([]byte, 48))
 }
 
-var e2ePatterns = []string{"lower-case letters", "binary with interior zero bytes"}
+var e2ePatterns = []string{"lower-case letters", "binary with interior zero bytes", "one or two leading zero bytes, then letters"}
 
 // e2eName never ends in a zero byte, and neither does the name without its last byte.
 func e2eName(n, pattern int) []byte {
@@ -178,6 +178,13 @@ func e2eName(n, pattern int) []byte {
 				b[i] = 0
 			} else if b[i] == 0 || i == n-1 && (b[i] == 0x20 || b[i] == 0x01) {
 				b[i] = 0x42 // never zero; the last byte also survives ^20 and ^01, so the neighbour set does not depend on the seed
+			}
+		case 2:
+			// names may BEGIN with zero bytes (only a trailing zero byte is excluded by the statement)
+			if i < 1+n%2 && i < n-1 {
+				b[i] = 0
+			} else {
+				b[i] = 'a' + b[i]%26
 			}
 		}
 	}
@@ -224,6 +231,12 @@ func neighbours(name []byte) []neighbour {
 		}
 		add("without last byte", append([]byte{}, name[:L-1]...))
 	}
+	// leading zero bytes are part of the name: with and without them are different origins
+	if L > 1 && name[0] == 0 {
+		add("without the leading zero bytes", bytes.TrimLeft(name, "\x00"))
+		add("without the first leading zero byte", append([]byte{}, name[1:]...))
+	}
+	add("00+name", cat([]byte{0}, name))
 	add("name+'a'", cat(name, []byte("a")))
 	add("name+' '", cat(name, []byte(" ")))
 	add("name+01", cat(name, []byte{1}))
